@@ -87,6 +87,8 @@ def _gen_opts(r: Rng, ds: dsdlgen.DsdlSet, lang: typing.Optional[str], fixed: ty
         o["lookups"] = [x for x in roots if x != root]
     o["outdir_spelling"] = r.choice(["abs", "rel", "rel_dot", "abs_slash", "rel_slash"])
     o["in_spelling"] = r.choice(["abs", "abs", "rel"])
+    if o["lookups"] and r.chance(1, 4):
+        o["lookups_via_env"] = True  # DSDL_INCLUDE_PATH instead of -I
     if not fixed:
         if r.chance(1, 3):
             o["omit_ser"] = True
@@ -219,6 +221,15 @@ def run_case(case: dict, ctx: dict) -> dict:
             o["support_templates"] = "%s-%s" % (o["support_templates"], o["lang"])
         return o
 
+    def env_plan(o: dict) -> dict:
+        """the invocation plan entries that realise lookups given through DSDL_INCLUDE_PATH"""
+        if not o.get("lookups_via_env"):
+            return {}
+        return {"env": {"DSDL_INCLUDE_PATH": os.pathsep.join(os.path.join(world.in_dir, x) for x in o.get("lookups", []))}, "env_unset": []}
+
+    def without_env_lookups(o: dict) -> dict:
+        return dict(o, lookups=[]) if o.get("lookups_via_env") else o
+
     violations = []  # type: typing.List[dict]
     states = []  # type: typing.List[str]
     evaluations = 0
@@ -234,7 +245,7 @@ def run_case(case: dict, ctx: dict) -> dict:
         return ",".join("%s=%s" % (k, o[k]) for k in ("gen_support", "omit_ser") if o.get(k))
 
     # ---- 1. the real run in a pristine directory
-    ref = nnvg.reference_run(world, O, ref_cache, enum_seed=enum_seed)
+    ref = nnvg.reference_run(world, without_env_lookups(O), ref_cache, enum_seed=enum_seed, **env_plan(O))
     evaluations += 1
     exec_case = {
         "label": case.get("label"),
@@ -270,9 +281,9 @@ def run_case(case: dict, ctx: dict) -> dict:
             for rofs in (False, True):
                 if rofs and phase == "dirty" and mode == "list_inputs":
                     continue
-                o = dict(O, mode=mode)
+                o = dict(without_env_lookups(O), mode=mode)
                 before = snapshot.snapshot(world.sandbox, with_mtime=True)
-                inv = world.invocation(o, enum_seed=enum_seed + (1 if rofs else 0))
+                inv = world.invocation(o, enum_seed=enum_seed + (1 if rofs else 0), **env_plan(O))
                 if rofs:
                     inv["rofs"] = True
                 res = proc.run_invocation(inv)
@@ -368,7 +379,7 @@ def run_case(case: dict, ctx: dict) -> dict:
     # ---- 4. dirty directory: modes again, then the real run over it must create exactly the listed set
     if executed_dirty:
         check_modes("dirty")
-        res = proc.run_invocation(world.invocation(O, enum_seed=enum_seed + 7))
+        res = proc.run_invocation(world.invocation(without_env_lookups(O), enum_seed=enum_seed + 7, **env_plan(O)))
         evaluations += 1
         if nnvg.succeeded(res):
             written = {world.sandbox + e[2][1:] for e in res["events"] if e[1] == "open-w" and str(e[2]).startswith("@")}
